@@ -2,6 +2,7 @@ import ProductMD.Proofs.TreeInfoText
 import ProductMD.Proofs.TreeInfoDecEq
 import ProductMD.Model.TreeInfoText
 import ProductMD.Model.DiscInfo
+import ProductMD.Proofs.DiscInfoRT
 /-!
 # C04 — treeinfo and discinfo survive a write/read cycle
 
@@ -220,5 +221,67 @@ theorem C04_F25_witness :
                images := [("xen-x86_64".toList, [("kernel".toList, "k".toList)])] }
     (serialize t none).toOption.map (deserialize C04_fo) = some (.error .valueError) := by
   decide +kernel
+
+/-! ### discinfo -/
+
+/-- **C04, discinfo, through the text.**  For every record the writer accepts: the float timestamp token reads back
+(`hts`: `float(repr x) == x`, CPython, finite `x`; a `repr` has no blanks or line feed: `hts1`), description and arch are
+single-line without outer blanks (`strip()` on write would alter them: F17d), the description does not start or end with a
+quote character (F17d), the disc numbers are `ALL` or any non-empty list of integers.  The decimal round trip of the
+numbers and the join/split of the four lines are proved, not assumed. -/
+theorem C04_disc_readback (fo : FloatOracle) (x : DI.DiscInfo) (text : Str)
+    (h : DI.dumps x = .ok text)
+    (hts : fo.reprOfFloatStr x.timestamp = .ok x.timestamp) (hts1 : Str.strip x.timestamp = x.timestamp ∧ '\n' ∉ x.timestamp)
+    (hdesc : Str.strip x.description = x.description ∧ '\n' ∉ x.description) (hq : DI.stripQuotes x.description = x.description)
+    (harch : Str.strip x.arch = x.arch ∧ '\n' ∉ x.arch)
+    (hd : x.discs = .all ∨ ∃ ns, x.discs = .nums ns ∧ ns ≠ []) :
+    DI.loads fo text = .ok x := by
+  obtain ⟨ts, desc, arch, discs⟩ := x
+  simp only at hts hts1 hdesc hq harch hd
+  unfold DI.dumps DI.serialize at h
+  obtain ⟨u, hv, h⟩ : ∃ u, validateClass "discinfo.DiscInfo" (DI.obj ⟨ts, desc, arch, discs⟩) = .ok u ∧ _ := by
+    cases hvv : validateClass "discinfo.DiscInfo" (DI.obj ⟨ts, desc, arch, discs⟩) with
+    | error e => rw [hvv] at h; cases h
+    | ok u => exact ⟨u, rfl, by rw [hvv] at h; exact h⟩
+  cases u
+  simp only [bind, Except.bind, pure, Except.pure, Except.map, hts1.1, hdesc.1, harch.1] at h
+  injection h with h
+  subst h
+  -- the last line
+  obtain ⟨hdsnl, hdsne, hread⟩ : '\n' ∉ DI.discsStr discs ∧ DI.discsStr discs ≠ [] ∧
+      DI.readDiscs (Str.strip (Str.strip (DI.discsStr discs))) = .ok discs := by
+    rcases hd with hd | ⟨ns, hd, hne⟩
+    · subst hd
+      exact ⟨by decide, by decide, by decide⟩
+    · subst hd
+      obtain ⟨r1, r2, r3, r4⟩ := DI.discs_roundtrip ns hne
+      refine ⟨DI.discs_line_no_nl ns, ?_, ?_⟩
+      · intro e
+        simp only [DI.discsStr] at e
+        rw [r4, e] at r1; cases r1
+      · rw [r4] at r1 r2 r3
+        simp only [DI.discsStr, DI.readDiscs, r4, r1, r2, r3, Bool.or_self, Bool.false_eq_true, if_false, Except.map]
+  generalize DI.discsStr discs = ds at h hdsnl hdsne hread ⊢
+  have hlines : IniParse.fileLines (DI.buildFile [ts, desc, arch, ds]) = [ts, desc, arch, ds] := by
+    apply DI.fileLines_join
+    · simp
+    · intro l hl
+      simp only [List.mem_cons, List.mem_nil_iff, or_false] at hl
+      rcases hl with rfl | rfl | rfl | rfl
+      · exact hts1.2
+      · exact hdesc.2
+      · exact harch.2
+      · exact hdsnl
+    · intro l hl
+      simp at hl; subst hl; exact hdsne
+  unfold DI.loads DI.parseFile
+  rw [hlines]
+  simp only [List.map, DI.deserialize, hts1.1, hdesc.1, harch.1, hts, hq, hread]
+  simp [hv]
+
+/-- the hypotheses of `C04_disc_readback` are satisfiable, with disc numbers of any sign and size -/
+example : (DI.dumps ⟨"1417653911.123".toList, "Fedora 21".toList, "x86_64".toList, .nums [1, 2, -3, 10 ^ 30]⟩).toBool = true
+    ∧ Str.strip "1417653911.123".toList = "1417653911.123".toList ∧ Str.strip "Fedora 21".toList = "Fedora 21".toList
+    ∧ DI.stripQuotes "Fedora 21".toList = "Fedora 21".toList := by decide +kernel
 
 end PM
